@@ -75,6 +75,9 @@ pub struct Model {
     /// inside begin_batch(skip_sync): appends since then are not yet durable
     pub batch_skip_sync: bool,
     pub undurable_from: Option<usize>,
+    /// how many operations at the tail of `pending` were acknowledged inside a skip_sync batch and
+    /// are therefore not yet durable (end_batch, or any commit, makes them so)
+    pub undurable_pending: usize,
     pub lex_enabled: bool,
     /// caller-made memory cards in insertion order, with the id the library assigned
     pub cards: Vec<(u64, crate::ops::CardSpec)>,
@@ -134,11 +137,22 @@ impl Model {
         // every path that applies the log also writes the in-memory tracks (or, on open, has
         // nothing un-persisted left: see lose_uncommitted_tracks)
         self.tracks_committed();
+        self.undurable_pending = 0;
     }
     /// The state a reopen must show: everything acknowledged, applied.
     pub fn recovered(&self) -> Model {
         let mut m = self.clone();
         m.lose_uncommitted_tracks();
+        m.apply_pending();
+        m
+    }
+    /// The state a reopen after a power loss must at least show: as `recovered`, without the
+    /// operations that were acknowledged inside a skip_sync batch that has not ended.
+    pub fn recovered_durable(&self) -> Model {
+        let mut m = self.clone();
+        m.lose_uncommitted_tracks();
+        let keep = m.pending.len().saturating_sub(m.undurable_pending);
+        m.pending.truncate(keep);
         m.apply_pending();
         m
     }
